@@ -3,6 +3,9 @@ import Driver.C16
 import Driver.C17
 import Driver.C02
 import Driver.C11
+import Driver.C03
+import Driver.C18
+import Driver.C12
 import Driver.C19
 import Driver.Ring
 open Driver
@@ -14,6 +17,9 @@ def main (args : List String) : IO UInt32 := do
   | ["C17"] => run C17.handler
   | ["C02"] => run C02.handler
   | ["C11"] => run C11.handler
+  | ["C03"] => run C03.handler
+  | ["C18"] => run C18.handler
+  | ["C12"] => run C12.handler
   | ["C19"] => run C19.handler
   | ["C04"] => run (Ring.handler "C04")
   | ["C05"] => run (Ring.handler "C05")
